@@ -7,7 +7,7 @@ use linfa::{
     traits::{Predict, PredictInplace},
     ParamGuard,
 };
-use ndarray::{Array1, Array2, ArrayBase, ArrayView1, ArrayView2, Data, Ix1, Ix2};
+use ndarray::{Array1, Array2, ArrayBase, ArrayView1, ArrayView2, Axis, Data, Ix1, Ix2};
 use std::cmp::Ordering;
 
 use super::error::{Result, SvmError};
@@ -157,8 +157,19 @@ pub fn fit_nu<F: Float>(
         .collect();
     res.rho /= r;
     res.obj /= r * r;
-    if let SeparatingHyperplane::Linear(ref mut hyperplane) = res.sep_hyperplane {
-        *hyperplane /= r;
+    match res.sep_hyperplane {
+        SeparatingHyperplane::Linear(ref mut hyperplane) => *hyperplane /= r,
+        // the support vectors have to match the coefficients `weighted_sum` pairs them with
+        SeparatingHyperplane::WeightedCombination(ref mut support_vectors) => {
+            let indices = res
+                .alpha
+                .iter()
+                .enumerate()
+                .filter(|(_, a)| a.abs() > F::cast(100.) * F::epsilon())
+                .map(|(i, _)| i)
+                .collect::<Vec<_>>();
+            *support_vectors = dataset.select(Axis(0), &indices);
+        }
     }
 
     res
